@@ -212,7 +212,10 @@ pub fn classify_ref(c: &RCase) -> Classes {
 fn ref_strategy(tier: Tier) -> BoxedStrategy<RCase> {
     let budget = tier.pick(64 * 1024u32, 2 * 1024 * 1024u32);
     let max_abs = tier.pick(20_000u32, 300_000u32);
-    (gen::mode3(), gen::content(), prop::collection::vec(hist::size(max_abs), 0..=20), prop_oneof![
+    // one case in 150: an input of 0.5-1.3 MiB (more than 2^9 chunks) in a few long updates
+    let long = (gen::mode3(), gen::content(), prop::collection::vec((100_000u32..=700_000).prop_map(Size::Abs), 1..=4), prop_oneof![Just(32u32), Just(131u32), 0u32..=300])
+        .prop_map(|(mode, content, updates, out_len)| RCase { mode, content, budget: 1_400_000, updates, out_len });
+    let usual = (gen::mode3(), gen::content(), prop::collection::vec(hist::size(max_abs), 0..=20), prop_oneof![
             40 => 0u32..=3000,
             20 => crate::gen::select(vec![0u32, 1, 31, 32, 33, 63, 64, 65, 128, 131]),
             // output block counters of narrower types wrap after 2^8 blocks (16 KiB) and 2^16 blocks (4 MiB)
@@ -220,8 +223,8 @@ fn ref_strategy(tier: Tier) -> BoxedStrategy<RCase> {
             2 => 0u32..=200_000,
             1 => (1u32 << 22) - 100..=(1u32 << 22) + 300,
         ])
-        .prop_map(move |(mode, content, updates, out_len)| RCase { mode, content, budget, updates, out_len })
-        .boxed()
+        .prop_map(move |(mode, content, updates, out_len)| RCase { mode, content, budget, updates, out_len });
+    prop_oneof![150 => usual, 1 => long].boxed()
 }
 
 pub fn subs() -> Vec<Box<dyn DynSub>> {
@@ -238,7 +241,7 @@ pub fn subs() -> Vec<Box<dyn DynSub>> {
         }),
         Box::new(PropSub::<RCase> {
             name: "refimpl-histories",
-            rule: "proptest: reference_impl::Hasher in the three modes, 0-20 updates with sizes resolved against the running total (<= 64 KiB quick, 2 MiB thorough), output length 0..3000 incl. non-multiples of 4 and 64, now and then ~16 KiB, <= 200 KB or 4 MiB +-300 bytes (output block counters of 8/16 bits would wrap there), intermediate finalize calls; oracle = spec xof; the optimized crate is compared on the same history; non-trivial = >=2 updates crossing a chunk boundary and output > 64 bytes",
+            rule: "proptest: reference_impl::Hasher in the three modes, 0-20 updates with sizes resolved against the running total (<= 64 KiB quick, 2 MiB thorough; one case in 150 an input of 0.5-1.3 MiB in a few long updates), output length 0..3000 incl. non-multiples of 4 and 64, now and then ~16 KiB, <= 200 KB or 4 MiB +-300 bytes (output block counters of 8/16 bits would wrap there), intermediate finalize calls; oracle = spec xof; the optimized crate is compared on the same history; non-trivial = >=2 updates crossing a chunk boundary and output > 64 bytes",
             cases: (12_000, 100_000),
             strategy: ref_strategy,
             classify: classify_ref,
